@@ -30,12 +30,12 @@ fn main() {
     let (d22, d33) = ctx.pick((7usize, 6usize), (9usize, 7usize));
     ctx.enumerate("links-enum-2x2", |w, ws| links::tree_cases(2, 2, d22, 2, w, ws), links::check_tree);
     ctx.enumerate("links-enum-3x3", |w, ws| links::tree_cases(3, 3, d33, 2, w, ws), links::check_tree);
-    let n = ctx.pick(300_000, 20_000_000);
+    let n = ctx.pick(2_000_000, 20_000_000);
     ctx.prop("links-random", n, || links::rand_strategy(80), links::check_rand);
-    let n = ctx.pick(40_000, 2_000_000);
+    let n = ctx.pick(300_000, 2_000_000);
     let (ph, ops) = ctx.pick((6usize, 14usize), (10usize, 30usize));
     ctx.prop("agentsim", n, move || agentsim::arb_case(ph, ops), agentsim::check);
-    let n = ctx.pick(400, 20_000);
+    let n = ctx.pick(2_000, 20_000);
     ctx.prop("threads", n, threads::strategy, threads::check);
     ctx.finish();
 }
